@@ -349,11 +349,120 @@ def run_case(c, chk, spec_items, spec_meta, grid_items, grid_meta):
     return True
 
 
+# ------------------------------------------------------------------ re-use of one calculator
+def gen_reuse(r, k):
+    base = gen_case(r, k, tensor=False)
+    base["nt"] = r.choice([100, 128, 151, 200])
+    nsteps = r.choice([2, 3, 3])
+    steps = []
+    offs = [0.0, 200.0, -300.0, 400.0, 17.0, -150.0, 350.0]
+    for i in range(nsteps):
+        u = r.random()
+        st = {"sys": 0 if i == 0 else r.choice([0, 0, 1]), "rwa": base["rwa"] + (0.0 if i == 0 else r.choice(offs)), "setrwa": False}
+        if i > 0 and u < 0.2:
+            st["rwa"] = steps[-1]["rwa"]                    # same arguments again
+        if i > 0 and base["nmol"] == 1 and u > 0.8:
+            st["setrwa"] = True                              # RWA now defined by the molecule: the argument is ignored
+        steps.append(st)
+    return {"kind": "reuse", "base": base, "alt": {"shift": r.choice([100.0, -200.0, 250.0]), "reorg": r.choice([20.0, 50.0])},
+            "steps": steps}
+
+
+def reuse_systems(c):
+    """the two systems a re-used calculator is pointed at (fresh objects on every call)"""
+    b = c["base"]
+    b2 = dict(b)
+    b2["energies"] = [e + c["alt"]["shift"] for e in b["energies"]]
+    b2["reorgs"] = [c["alt"]["reorg"]] * b["nmol"]
+    t0, s0, cf0 = build(b)
+    t1, s1, cf1 = build(b2)
+    return t0, [s0, s1], [cf0, cf1]
+
+
+def apply_step(ac, systems, st, state):
+    import quantarhei as qr
+    sysobj = systems[st["sys"]]
+    if ac.system is not sysobj:
+        ac.system = sysobj
+    if st["setrwa"] and not state.get(("setrwa", st["sys"])):
+        sysobj.set_electronic_rwa([0, 1])
+        state[("setrwa", st["sys"])] = True
+    with qr.energy_units("1/cm"):
+        ac.bootstrap(rwa=st["rwa"])
+    return ac.calculate(raw=True)
+
+
+def run_reuse(c, chk, grid_items, grid_meta):
+    import numpy
+    import quantarhei as qr
+    b = c["base"]
+    tag = "%s:%dsteps" % ("molecule" if b["nmol"] == 1 else "aggregate%d%s" % (b["nmol"], "" if b.get("mult", 1) == 1 else "_mult2"), len(c["steps"]))
+    chk.count("reuse:" + tag)
+    time, systems, cfs = reuse_systems(c)
+    ac = qr.AbsSpectrumCalculator(time, system=systems[c["steps"][0]["sys"]])
+    state = {}
+    nt, dt = b["nt"], b["dt"]
+    ok = True
+    for k, st in enumerate(c["steps"]):
+        sp = apply_step(ac, systems, st, state)
+        data = numpy.asarray(sp.data, dtype=float)
+        with qr.energy_units("int"):
+            axis = numpy.asarray(sp.axis.data, dtype=float).copy()
+        rwa = float(ac.rwa)
+        # a fresh calculator on fresh (identical) systems, brought to the same system state, bootstrapped ONCE with these arguments
+        ftime, fsystems, _cf = reuse_systems(c)
+        fstate = {}
+        for j in range(k):
+            pj = c["steps"][j]
+            if pj["setrwa"] and not fstate.get(("setrwa", pj["sys"])):
+                fsystems[pj["sys"]].set_electronic_rwa([0, 1])
+                fstate[("setrwa", pj["sys"])] = True
+        fac = qr.AbsSpectrumCalculator(ftime, system=fsystems[st["sys"]])
+        fsp = apply_step(fac, fsystems, st, fstate)
+        fdata = numpy.asarray(fsp.data, dtype=float)
+        with qr.energy_units("int"):
+            faxis = numpy.asarray(fsp.axis.data, dtype=float).copy()
+        scale = max(float(numpy.max(numpy.abs(fdata))), 1e-300)
+        what = "bootstrap no. %d of one calculator (rwa argument %g 1/cm, system %d%s; earlier: %s)" % (
+            k + 1, st["rwa"], st["sys"], ", RWA set on the molecule" if st["setrwa"] else "",
+            ", ".join("%g/sys%d" % (p["rwa"], p["sys"]) for p in c["steps"][:k]) or "none")
+        if abs(float(fac.rwa) - rwa) > 1e-12 * max(1.0, abs(rwa)):
+            chk.violation("reuse:rwa:" + tag, "%s: calculator.rwa is %r, a fresh calculator has %r" % (what, rwa, float(fac.rwa)), "monitor", c)
+            ok = False
+        if axis.shape != faxis.shape or float(numpy.max(numpy.abs(axis - faxis))) > 1e-11 * max(1.0, float(numpy.max(numpy.abs(faxis)))):
+            dev = float(numpy.max(numpy.abs(axis - faxis))) if axis.shape == faxis.shape else float("inf")
+            chk.violation("reuse:axis:" + tag, "%s: the returned frequency axis differs from that of a fresh calculator bootstrapped once with the "
+                          "same arguments by %g (grid step %g): every line is displaced by that much from where the RWA frequency %g puts it"
+                          % (what, dev, faxis[1] - faxis[0] if len(faxis) > 1 else 0.0, rwa), "monitor", c)
+            ok = False
+        if data.shape != fdata.shape or float(numpy.max(numpy.abs(data - fdata))) > 1e-9 * scale:
+            dev = float(numpy.max(numpy.abs(data - fdata))) if data.shape == fdata.shape else float("inf")
+            chk.violation("reuse:data:" + tag, "%s: the spectrum differs from that of a fresh calculator by %g (max %g)" % (what, dev, scale), "monitor", c)
+            ok = False
+        # the axis follows the RWA frequency: the zero of the index frequency sits at Nt - Nt//2 on the axis cut from bootstrap's
+        # grid (two positions lower on the grid of the transform)
+        p0 = nt - nt // 2
+        if len(axis) == nt and min(abs(axis[p0] - rwa), abs(axis[p0 - 2] - rwa)) > 1e-9 * max(1.0, abs(rwa)):
+            chk.violation("reuse:axis_follows_rwa:" + tag, "%s: the returned axis has %r at its zero-frequency position, the RWA frequency is %r"
+                          % (what, float(axis[p0]), rwa), "monitor", c)
+            ok = False
+        if len(axis) == nt:
+            grid_items.append("(%s, %d%%nat, %s, %s, %s, %s)" % (cm.qlit(2.0 * numpy.pi), nt, cm.qlit(dt), cm.qlit(rwa), qrow(axis),
+                                                              cm.qlit(1e-12 * (abs(rwa) + numpy.pi / dt))))
+            grid_meta.append(c)
+    return ok
+
+
+
 def run(chk, cases):
     spec_items, spec_meta, grid_items, grid_meta = [], [], [], []
     for c in cases:
         chk.count("kind:" + c["kind"])
         try:
+            if c["kind"] == "reuse":
+                ok = run_reuse(c, chk, grid_items, grid_meta)
+                chk.case(c, ok, sample={"reuse": c["steps"], "nmol": c["base"]["nmol"]})
+                continue
             ok = run_case(c, chk, spec_items, spec_meta, grid_items, grid_meta)
             chk.case(c, ok, sample={"nmol": c["nmol"], "nt": c["nt"], "dt": c["dt"], "energies": c["energies"], "tensor": c["tensor"]})
         except Exception as e:
@@ -423,12 +532,25 @@ def corpus():
     return [base, dimer, dimer_t, dimer2, trimer2]
 
 
+def reuse_corpus():
+    cs = corpus()
+    mol, dimer = cs[0], cs[1]
+    return [{"kind": "reuse", "base": dict(mol, nt=128), "alt": {"shift": 100.0, "reorg": 50.0},
+             "steps": [{"sys": 0, "rwa": 12000.0, "setrwa": False}, {"sys": 0, "rwa": 12400.0, "setrwa": False},
+                       {"sys": 0, "rwa": 12400.0, "setrwa": False}]},
+            {"kind": "reuse", "base": dict(mol, nt=100), "alt": {"shift": -200.0, "reorg": 20.0},
+             "steps": [{"sys": 0, "rwa": 11800.0, "setrwa": False}, {"sys": 0, "rwa": 11800.0, "setrwa": True}]},
+            {"kind": "reuse", "base": dict(dimer, nt=128), "alt": {"shift": 250.0, "reorg": 50.0},
+             "steps": [{"sys": 0, "rwa": 12000.0, "setrwa": False}, {"sys": 1, "rwa": 12200.0, "setrwa": False},
+                       {"sys": 0, "rwa": 11700.0, "setrwa": False}]}]
+
+
 def main():
     chk = cm.Check(PID, args.tier)
     chk.rule = ("molecules, dimers, trimers; transition energies within +-250 1/cm of the RWA frequency (lines resolved inside the window), "
                 "integer dipole vectors, aggregates built with mult = 1 and mult = 2 (two-exciton states present), couplings explicit (0..+-200 1/cm) or from dipole-dipole geometry, Nt in {100..301} even and odd, "
                 "dt in {1, 1.5, 2} fs, equal or different reorganisation energies, with/without a supplied standard Redfield tensor; each "
-                "case also with scaled, rotated (proper/improper), relabelled inputs. Non-trivial: every completed case; distinct by input")
+                "case also with scaled, rotated (proper/improper), relabelled inputs; re-use cases: ONE calculator bootstrapped 2-3 times (other RWA frequency, the same one again, RWA then defined on the molecule, another system / lineshape) with calculate() after each, compared with a fresh calculator bootstrapped once. Non-trivial: every completed case; distinct by input")
     chk.assumptions = [
         "numpy.fft.hfft computes Re sum_m c_m a_m exp(-2 pi i m k / n), c = (1,2,...,2,1), n = 2Nt-2 (hypothesis hfft_spec): monitored, 1e-10",
         "the lineshape function g(t) is the code's own _c2g (spline double integration: oracle, property C09/C10 territory); eigenvectors from "
@@ -441,11 +563,13 @@ def main():
     chk.prove()
     if args.replay:
         rep = json.load(open(args.replay))
-        cases = [rep["input"]] if isinstance(rep.get("input"), dict) and rep["input"].get("kind") == "spec" else []
+        cases = [rep["input"]] if isinstance(rep.get("input"), dict) and rep["input"].get("kind") in ("spec", "reuse") else []
     else:
         r = cm.rng(PID)
         ncase = 30 if args.tier == "quick" else 200
         cases = corpus() + [gen_case(r, k) for k in range(ncase)]
+        r2 = cm.rng(PID + "/reuse")
+        cases += reuse_corpus() + [gen_reuse(r2, k) for k in range(10 if args.tier == "quick" else 80)]
     run(chk, cases)
     chk.finish()
 
